@@ -1,5 +1,4 @@
 import re
-from textwrap import indent
 from typing import Any, Dict, Iterable, cast
 
 from ..core import BaseRenderer, BlockState
@@ -8,6 +7,7 @@ from ._list import render_list
 
 fenced_re = re.compile(r"^[`~]+", re.M)
 _quote_end_re = re.compile(r"(?:\n> ?)*[ \n]*$")
+_line_re = re.compile(r"[^\n]*\n|[^\n]+")
 
 
 class MarkdownRenderer(BaseRenderer):
@@ -116,7 +116,8 @@ class MarkdownRenderer(BaseRenderer):
         return marker2 + info + "\n" + code + marker2 + "\n\n"
 
     def block_quote(self, token: Dict[str, Any], state: BlockState) -> str:
-        text = indent(self.render_children(token, state), "> ", lambda _: True)
+        # only a line feed ends a line here (textwrap.indent also breaks at form feeds, U+2028 ...)
+        text = "".join("> " + line for line in _line_re.findall(self.render_children(token, state)))
         # remove the trailing empty quote lines, but not a ">" of the content
         text = _quote_end_re.sub("", text, 1)
         return text + "\n\n"
